@@ -369,6 +369,14 @@ func StepContracts(pre *State, choice int) {
 				}
 			}
 		}
+		// C02: the per-target chain: a proposal is linked behind the proposal the configuration has proposed last
+		for i := 0; i < NX; i++ {
+			pa, pb := &pre.Props[t][i], &S.Props[t][i]
+			if pa.Exists && pb.Exists && pa.Prev != pb.Prev && a.Exists {
+				verifrt.Cover("linked")
+				verifrt.Assert(pb.Prev == a.Proposed, "c02-linked-behind-the-last-proposed")
+			}
+		}
 		// C05 / C01: a proposal becomes VALIDATED only with a true verdict of this very step, on top of its predecessor's commit
 		for i := 0; i < NX; i++ {
 			pa, pb := &pre.Props[t][i], &S.Props[t][i]
